@@ -157,6 +157,8 @@ void h_K_make_block_data(void)
   g_ra = nondet_int(); g_a = nondet_int(); g_rb = nondet_int(); g_b = nondet_int(); g_acc = 0; g_blk_bad = 0;
   K_make_block_data(s, nondet_int(), nondet_int());
 }
+#include "K_make_fan_sum_data.c"
+void h_K_make_fan_sum_data(void) { struct FAN* s; g_ra = nondet_int(); g_a = nondet_int(); g_rb = 0; g_acc = 0; K_make_fan_sum_data(s); }
 #include "K_fan_sum.c"
 void h_K_fan_sum(void)
 {
